@@ -15,9 +15,14 @@ def _unbold_heading_transformer(element: Element) -> None:
         # Check if the heading consists *only* of a single StrongEmphasis element
         if len(element.children) == 1 and isinstance(element.children[0], inline.StrongEmphasis):
             # Replace the heading's children with the children of the StrongEmphasis element
-            strong_emphasis_node = element.children[0]
-            # Type checker struggles here, but StrongEmphasis children should be Elements.
-            element.children = strong_emphasis_node.children  # pyright: ignore
+            # (repeatedly: "****text****" is bold inside bold, and one level at a time would
+            # need one formatting pass per level).
+            while len(element.children) == 1 and isinstance(
+                element.children[0], inline.StrongEmphasis
+            ):
+                strong_emphasis_node = element.children[0]
+                # Type checker struggles here, but StrongEmphasis children should be Elements.
+                element.children = strong_emphasis_node.children  # pyright: ignore
 
         # Handle the case where the heading is bold and italic (StrongEmphasis inside Emphasis or vice versa)
         # ***text***  -> *text*
